@@ -33,6 +33,7 @@ class Interp:
         self.nodes: dict[str, object] = {}   # statement / function id -> Node
         self.handles: list[tuple] = []       # (what, handle, expected number of outputs)
         self.loads: list[tuple] = []         # (load node, hugr, value descriptor type)
+        self.const_nodes: dict[str, object] = {}  # load statement id -> Const node feeding it
         self.hook = hook
         self.calls = 0
         self.root_builder = None
@@ -102,10 +103,20 @@ class Interp:
     def run_stmts(self, b, stmts):
         saved, self._cur = self._cur, b.hugr
         try:
-            for st in stmts:
+            i = 0
+            while i < len(stmts):
+                st = stmts[i]
                 self.fault("region", st, b=b)
-                getattr(self, "st_" + st["s"])(b, st)
+                j = i + 1
+                while (st["s"] == "op" and st.get("via") == "extend" and j < len(stmts)
+                       and stmts[j].get("batch")):
+                    j += 1
+                if j > i + 1:
+                    self.st_extend_many(b, stmts[i:j])
+                else:
+                    getattr(self, "st_" + st["s"])(b, st)
                 self.step(b, st["s"])
+                i = j
         finally:
             self._cur = saved
 
@@ -125,7 +136,24 @@ class Interp:
         for i, wid in enumerate(st["outs"]):
             self.w[wid] = n[i]
 
+    def st_extend_many(self, b, sts):
+        """several independent commands through ONE extend(...) call"""
+        ns = b.extend(*[self.make_op(st["op"])(*self.wires(st["args"])) for st in sts])
+        assert len(ns) == len(sts), f"extend returned {len(ns)} nodes for {len(sts)} commands"
+        for st, n in zip(sts, ns):
+            self.nodes[st["id"]] = n
+            self.handles.append((f"extend:{st['op'][0]}", n, len(st["outs"])))
+            for k, wid in enumerate(st["outs"]):
+                self.w[wid] = n[k]
+
     def st_load(self, b, st):
+        if "reuse" in st:
+            n = b.load(self.const_nodes[st["reuse"]])
+            self.nodes[st["id"]] = n
+            self.handles.append(("load", n, 1))
+            self.loads.append((n, b.hugr, st["ty"]))
+            self.w[st["out"]] = n[0]
+            return
         v = self.vb.val(st["val"])
         parent = self.const_parent(b, st.get("const_parent", "here"))
         if st.get("via_node"):
@@ -134,6 +162,9 @@ class Interp:
         else:
             n = b.load(v, const_parent=parent) if parent is not None else b.load(v)
         self.nodes[st["id"]] = n
+        # the Const node feeding it (needed when a later statement loads the same constant again)
+        self.const_nodes[st["id"]] = c if st.get("via_node") else next(
+            iter(b.hugr.linked_ports(n.inp(0)))).node
         self.handles.append(("load", n, 1))
         self.loads.append((n, b.hugr, st["ty"]))
         self.w[st["out"]] = n[0]
